@@ -156,7 +156,21 @@ pub fn own_prove<G: CurveTag>(prog: &Program, seed: u64, cheat: &Cheat<Fr<G>>) -
     let n = m.gates();
     let n2 = n - n1;
     let padded = n.next_power_of_two().max(1);
-    let (i2, o2, s2) = if n2 > 0 { (rnd(), rnd(), rnd()) } else { (Fr::<G>::zero(), Fr::<G>::zero(), Fr::<G>::zero()) };
+    // JunkPhase2(sd): sd % 7 + 1 selects which of the three second-phase slots are filled,
+    // (sd / 7) % 2 how: 0 = unrelated points (the relations fail), 1 = multiples of the
+    // blinding base that are accounted for in e_blinding (an unusual but *valid* proof)
+    let junk: Option<(u64, bool, u64)> = match cheat {
+        Cheat::JunkPhase2(sd) if n2 == 0 => Some((sd % 7 + 1, (sd / 7) % 2 == 1, *sd)),
+        _ => None,
+    };
+    let (i2, o2, s2) = if n2 > 0 {
+        (rnd(), rnd(), rnd())
+    } else if let Some((mask, true, sd)) = junk {
+        let b = |k: u64| if mask >> k & 1 == 1 { crate::scalars::ScalarSpec::Rand(sd * 3 + k + 1000).to_f::<Fr<G>>() } else { Fr::<G>::zero() };
+        (b(0), b(1), b(2))
+    } else {
+        (Fr::<G>::zero(), Fr::<G>::zero(), Fr::<G>::zero())
+    };
     for _ in 0..n2 {
         s_l.push(rnd());
     }
@@ -165,9 +179,19 @@ pub fn own_prove<G: CurveTag>(prog: &Program, seed: u64, cheat: &Cheat<Fr<G>>) -
     }
     let (A_I2, A_O2, S2) = if n2 > 0 {
         (commit_vec(n1..n, &m.a_l, Some(&m.a_r), i2), commit_vec(n1..n, &m.a_o, None, o2), commit_vec(n1..n, &s_l, Some(&s_r), s2))
-    } else if let Cheat::JunkPhase2(sd) = cheat {
-        let jp = |k: u64| -> G { mul(&G::generator(), &crate::scalars::ScalarSpec::Rand(*sd * 3 + k).to_f::<Fr<G>>()).into_affine() };
-        (jp(0), jp(1), jp(2))
+    } else if let Some((mask, balanced, sd)) = junk {
+        if balanced {
+            (mul(&Bb, &i2).into_affine(), mul(&Bb, &o2).into_affine(), mul(&Bb, &s2).into_affine())
+        } else {
+            let jp = |k: u64| -> G {
+                if mask >> k & 1 == 1 {
+                    mul(&G::generator(), &crate::scalars::ScalarSpec::Rand(sd * 3 + k).to_f::<Fr<G>>()).into_affine()
+                } else {
+                    G::zero()
+                }
+            };
+            (jp(0), jp(1), jp(2))
+        }
     } else {
         (G::zero(), G::zero(), G::zero())
     };
